@@ -37,8 +37,9 @@
     * ordinals: `septuagésimo` | `setuagésimo` (cp 0 9), `sexcentésimo` | `seiscentésimo` (cp 0 10),
       `noningentésimo` | `nongentésimo` (cp 0 11); `décimo primeiro` | `undécimo` (cp 0 12),
       `décimo segundo` | `duodécimo` (cp 0 13), `trecentésimo` | `tricentésimo` (cp 0 14) — the last
-      three second forms are standard (Cunha & Cintra list them as equal alternatives) but unknown to
-      the library's vocabulary: kept here as findings.
+      three second forms are standard (Cunha & Cintra list them as equal alternatives); they were missing
+      from the library's vocabulary on an earlier tree and are known to it now, in the four inflections
+      (`undécimo` ↦ `11º`, `duodécimo` ↦ `12º`, `tricentésimo` ↦ `300º`): no finding is left here.
 
   Deliberately NOT included (non-standard, or pre-1990 orthography):
     * `cinqüenta`, `qüinquagésimo`, `qüingentésimo` (trema abolished by the 1990 agreement; not used
